@@ -64,7 +64,22 @@ def gen_ir(r):
         elif k < 0.18:
             p["typ"] = "complex"
             p["default"] = r.choice([2j, 1 + 2j, -3j])
+    # prose that mentions, as ordinary words, the section keywords of the other docstring styles (the interface is still an ordinary one)
+    if r.random() < 0.12:
+        kw = r.choice(KW_PROSE)
+        if r.random() < 0.5:
+            ir["doc"] = "Build the thing. " + kw
+        else:
+            ir["params"][r.choice(list(ir["params"]))]["doc"] = kw
     return ir
+
+
+KW_PROSE = ["what the function Returns: see below", "positional Args: forwarded verbatim", "extra Kwargs: none", "on failure it Raises: nothing", "the Parameters of the model"]
+
+
+def kw_in_prose(ir):
+    texts = [ir.get("doc") or ""] + [p.get("doc") or "" for p in ir["params"].values()]
+    return next((k for k in ("Returns:", "Args:", "Kwargs:", "Raises:", "Parameters") if any(k in t for t in texts)), None)
 
 
 def view3(ir):
@@ -143,6 +158,18 @@ def compare(chk, ir, tree, cfg="doc"):
     (the hop after which the view differs from the start while it still agreed before it); what follows is a cascade."""
     start = view3(ir)
     rp_ir = docir.ir_to_model(ir)
+    kwp = kw_in_prose(ir)
+    if kwp:
+        class _MarkedK:  # root-cause marker on every signature of the case: a description mentions a section keyword as prose
+            def __init__(self, inner):
+                self.inner = inner
+
+            def failure(self, sig, what, replay):
+                return self.inner.failure({**sig, "keyword_in_doc": kwp}, what, replay)
+
+            def __getattr__(self, k):
+                return getattr(self.inner, k)
+        chk = _MarkedK(chk)
     n_chains = 0
     kept = chk.coverage.setdefault("chains_fully_preserved_by_length", {})
     for key in sorted(tree, key=lambda k: (k.count("|"), k)):
